@@ -38,7 +38,8 @@ RULE = ('case = target FASTA with unique sequences (random peptides incl. low-co
 ASSUMPTIONS = [
     'inputs have unique sequences (what the callers emit); duplicated target sequences make one-decoy-per-target '
     'order independence ill-defined',
-    'which positions stay fixed is a pure-input clause and is not decided here',
+    'fixed positions are monitored for the peptide termini and the listed residues only; the residues at the '
+    "enzyme's cleavage sites need a digestion oracle (pure-input clause, not decided here)",
 ]
 AA = 'ACDEFGHIKLMNPQRSTVWY'
 
@@ -154,6 +155,21 @@ def structure(targets, opts, text):
         seen[base] = seen.get(base, 0) + 1
         if sorted(s) != sorted(tset[base]):
             bad.append(('structure:not-a-permutation', {'target': tset[base], 'decoy': s}))
+        elif len(s) == len(tset[base]):
+            # requested fixed positions that need no digestion oracle: peptide termini and listed residues
+            t = tset[base]
+            moved = []
+            if opts['keep_peptide_nterm'] == 'true' and s[0] != t[0]:
+                moved.append(0)
+            if opts['keep_peptide_cterm'] == 'true' and s[-1] != t[-1]:
+                moved.append(len(t) - 1)
+            pat = [x for x in opts['non_shuffle_pattern'].split(',') if x]
+            moved += [i for i, c in enumerate(t) if c in pat and s[i] != c]
+            if moved:
+                bad.append(('structure:fixed-position-moved',
+                            {'target': t, 'decoy': s, 'positions': sorted(set(moved)),
+                             'opts': {k: opts[k] for k in ('method', 'enzyme', 'keep_peptide_nterm',
+                                                           'keep_peptide_cterm', 'non_shuffle_pattern')}}))
     if set(seen) != set(tset) or any(v != 1 for v in seen.values()):
         bad.append(('structure:one-decoy-per-target',
                     {'missing': sorted(set(tset) - set(seen))[:3], 'multiple': [k for k, v in seen.items() if v > 1][:3]}))
